@@ -9,6 +9,7 @@ pub mod c16;
 pub mod c17;
 pub mod cmd;
 pub mod coldstart;
+pub mod sessions;
 pub mod oligo_exec;
 pub mod c06;
 pub mod c07;
@@ -109,10 +110,10 @@ pub fn all() -> Vec<PropInfo> {
         replay: c13::replay,
         shards: (8, 8),
         watchdog: (900, 7200),
-        rule: "Hypothesis (python3-vt, seeded from VERIF_SEED, no database) over Python str from three alphabets (nucleotide, mixed case + IUPAC + punctuation, full unicode without surrogates and U+0000..U+0003) x parameters in the documented ranges x batch sizes 0..50 (occasionally 2000); \
+        rule: "Hypothesis (python3-vt, seeded from VERIF_SEED, no database) over Python str from three alphabets (nucleotide, mixed case + IUPAC + punctuation, full unicode without surrogates, and nucleotides sprinkled with the raw code points U+0000..U+0003) x parameters in the documented ranges x batch sizes 0..50 (occasionally 2000); \
                differential against the Rust core built from the same tree (vh oracle-server): k-mer and minimiser iterators equal, to_acgt equal, oligo vector within 1e-12 and header equal, CGR equal or ValueError exactly when the core returns Err, batch == list of per-sequence results in order (CGR batch raises iff an element is bad), iterator from a released temporary string followed by gc and 1 MiB of fresh allocations still equals the core; the interpreter must survive (a dead interpreter = violation with the journaled example); \
                non-trivial = non-empty result and (non-ASCII present or batch >= 2 or released-string leg); distinct by hash of the example",
-        assumptions: &["scheduling of rayon's global pool inside the extension is only stressed (large batches), not controlled", "U+0000..U+0003 are never generated (bytes 0-3 are unspecified)"],
+        assumptions: &["scheduling of rayon's global pool inside the extension is only stressed (large batches), not controlled", "U+0000..U+0003 are generated in a dedicated alphabet only: every leg is differential against the core, which defines what they mean"],
         abort_is_violation: false,
     },
     PropInfo {
